@@ -52,3 +52,92 @@ package index
 //@   ensures result >= 0 ==> (forall k int :: result <= k && k < len(symOffsets) ==> end <= symOffsets[k].Start)
 //@   ensures result == -1 ==> (exists k int :: 0 <= k && k < len(symOffsets) && start < symOffsets[k].End && symOffsets[k].Start < end)
 //@   assigns nothing
+
+// ---------------------------------------------------------------------------
+// C22: display limits
+// ---------------------------------------------------------------------------
+
+// lmFragSum(F, j) = number of line fragments in F[0:j] (in the heap it reads).
+//@ abstract func lmFragSum(F []zoekt.LineMatch, j int) int reads Slice
+//@ axiom lmFragSum0: forall F []zoekt.LineMatch :: lmFragSum(F, 0) == 0
+//@ axiom lmFragSumS: forall F []zoekt.LineMatch, j int :: 0 <= j && j < len(F) ==> lmFragSum(F, j+1) == lmFragSum(F, j) + len(F[j].LineFragments)
+
+//@ func index.limitLineMatches
+//@   requires file != nil && limit > 0
+//@   let F = file.LineMatches
+//@   loop 1:
+//@     invariant -1 <= $i && $i < len(F)
+//@     invariant file.LineMatches == F
+//@     invariant limit > 0 && limit == old(limit) - old(lmFragSum(F, $i+1)) && limit <= old(limit)
+//@     invariant forall k int :: 0 <= k && k < len(F) ==> F[k].LineFragments == old(F[k].LineFragments)
+//@     decreases len(F) - $i
+//@     assigns file.LineMatches, file.LineMatches[*].LineFragments
+//@   ensures result >= 0
+//@   ensures result > 0 ==> file.LineMatches == F && result == limit - old(lmFragSum(F, len(F))) && (forall k int :: 0 <= k && k < len(F) ==> F[k].LineFragments == old(F[k].LineFragments))
+//@   ensures result == 0 ==> (exists j int :: 0 <= j && j < len(F) && file.LineMatches == F[:j+1] && (forall k int :: 0 <= k && k < j ==> F[k].LineFragments == old(F[k].LineFragments)) && old(lmFragSum(F, j)) < limit && limit - old(lmFragSum(F, j)) <= len(old(F[j].LineFragments)) && F[j].LineFragments == old(F[j].LineFragments)[:limit - old(lmFragSum(F, j))])
+//@   ensures result <= limit
+//@   assigns file.LineMatches, file.LineMatches[*].LineFragments
+
+// Chunk variant: the part of the contract that limitMatches relies on.
+//@ abstract func nlFrom(c []byte, a int) int reads Int
+//@ axiom nlFromEnd: forall c []byte, a int :: a >= len(c) ==> nlFrom(c, a) == 0
+//@ axiom nlFromStep: forall c []byte, a int :: 0 <= a && a < len(c) ==> nlFrom(c, a) == nlFrom(c, a+1) + ite(c[a] == '\n', 1, 0)
+
+//@ pure func okSym(cm zoekt.ChunkMatch) bool = cm.SymbolInfo != nil ==> len(cm.SymbolInfo) == len(cm.Ranges)
+//@ pure func okChunk(cm zoekt.ChunkMatch) bool = (forall a, b int :: 0 <= a && a <= b && b < len(cm.Ranges) ==> 0 <= cm.Ranges[b].End.LineNumber - cm.Ranges[a].End.LineNumber && cm.Ranges[b].End.LineNumber - cm.Ranges[a].End.LineNumber <= nlFrom(cm.Content, 0))
+
+//@ func index.limitChunkMatches
+//@   requires file != nil && limit > 0
+//@   requires forall k int :: 0 <= k && k < len(file.ChunkMatches) ==> okSym(file.ChunkMatches[k])
+//@   may_panic_at Panicf
+//@   let F = file.ChunkMatches
+//@   loop 1:
+//@     invariant -1 <= $i && $i < len(F)
+//@     invariant file.ChunkMatches == F
+//@     invariant limit > 0 && limit <= old(limit)
+//@     invariant forall k int :: 0 <= k && k < len(F) ==> F[k] == old(F[k])
+//@     decreases len(F) - $i
+//@     assigns file.ChunkMatches, file.ChunkMatches[*].Ranges, file.ChunkMatches[*].SymbolInfo, file.ChunkMatches[*].Content
+//@   loop 2:
+//@     invariant -1 <= b && b < len(cm.Content)
+//@     invariant n > 0 && n + nlFrom(cm.Content, b+1) == uint32(cm.Ranges[len(cm.Ranges)-1].End.LineNumber - cm.Ranges[limit-1].End.LineNumber)
+//@     decreases b + 1
+//@   ensures result >= 0
+//@   ensures result > 0 ==> file.ChunkMatches == F && (forall k int :: 0 <= k && k < len(F) ==> F[k] == old(F[k]))
+//@   let NF = len(file.ChunkMatches)
+//@   ensures result == 0 ==> 1 <= len(file.ChunkMatches) && len(file.ChunkMatches) <= NF && file.ChunkMatches == F[:len(file.ChunkMatches)]
+//@   ensures result == 0 ==> (forall k int :: 0 <= k && k < len(file.ChunkMatches)-1 ==> F[k] == old(F[k]))
+//@   ensures result == 0 ==> 0 < len(F[len(file.ChunkMatches)-1].Ranges) && len(F[len(file.ChunkMatches)-1].Ranges) <= limit
+//@   ensures result == 0 ==> F[len(file.ChunkMatches)-1].Ranges == old(F[now(len(file.ChunkMatches))-1].Ranges)[:len(F[len(file.ChunkMatches)-1].Ranges)]
+//@   ensures result == 0 ==> (F[len(file.ChunkMatches)-1].SymbolInfo != nil ==> len(F[len(file.ChunkMatches)-1].SymbolInfo) == len(F[len(file.ChunkMatches)-1].Ranges))
+//@   ensures result == 0 ==> len(F[len(file.ChunkMatches)-1].Content) <= len(old(F[now(len(file.ChunkMatches))-1].Content)) && base(F[len(file.ChunkMatches)-1].Content) == base(old(F[now(len(file.ChunkMatches))-1].Content)) && offset(F[len(file.ChunkMatches)-1].Content) == offset(old(F[now(len(file.ChunkMatches))-1].Content))
+//@   ensures result == 0 ==> (len(F[len(file.ChunkMatches)-1].Content) < len(old(F[now(len(file.ChunkMatches))-1].Content)) ==> old(F[now(len(file.ChunkMatches))-1].Content[now(len(F[len(file.ChunkMatches)-1].Content))]) == '\n')
+//@   ensures result <= limit
+//@   assigns file.ChunkMatches, file.ChunkMatches[*].Ranges, file.ChunkMatches[*].SymbolInfo, file.ChunkMatches[*].Content
+
+// Same function, stronger precondition (what fillContentChunkMatches
+// establishes): the "should be impossible" Panicf is then unreachable.
+//@ func index.limitChunkMatches#nopanic
+//@   extends index.limitChunkMatches
+//@   requires forall k int :: 0 <= k && k < len(file.ChunkMatches) ==> okChunk(file.ChunkMatches[k])
+
+// limitMatches: files is cut to a prefix; every file before the last kept one
+// went through the limiter with a positive remainder (and is therefore
+// unchanged by the limiter's own contract); the remaining limit is returned.
+// sepChunks: distinct files have separately allocated ChunkMatches arrays (they are
+// built per file by fillChunkMatches); a precondition on callers.
+//@ pure func sepChunks(files []zoekt.FileMatch) bool = forall a, b int :: 0 <= a && a < b && b < len(files) ==> root(files[a].ChunkMatches) != root(files[b].ChunkMatches) || files[a].ChunkMatches == nil || files[b].ChunkMatches == nil
+//@ pure func okSyms(cms []zoekt.ChunkMatch) bool = forall k int :: 0 <= k && k < len(cms) ==> (cms[k].SymbolInfo != nil ==> len(cms[k].SymbolInfo) == len(cms[k].Ranges))
+//@ func index.limitMatches
+//@   requires limit > 0
+//@   requires chunkMatches ==> sepChunks(files) && (forall i int :: 0 <= i && i < len(files) ==> okSyms(files[i].ChunkMatches))
+//@   loop 1:
+//@     invariant -1 <= $i && $i < len(files)
+//@     invariant limit > 0 && limit <= old(limit)
+//@     invariant chunkMatches ==> sepChunks(files)
+//@     invariant chunkMatches ==> (forall i int :: $i < i && i < len(files) ==> okSyms(files[i].ChunkMatches))
+//@     decreases len(files) - $i
+//@   ensures result1 >= 0 && result1 <= limit
+//@   ensures base(result0) == base(files) && offset(result0) == offset(files) && len(result0) <= len(files)
+//@   ensures result1 > 0 ==> result0 == files
+//@   ensures result1 == 0 ==> len(result0) >= 1
